@@ -56,7 +56,8 @@ func SafeMul[T Integer](x T, y T) (T, error) {
 
 	result := x * y
 
-	if result/x != y {
+	// result/x == y also holds for the wrapped product of -1 * MinInt, so check both quotients.
+	if result/x != y || result/y != x {
 		return 0, ierrors.WithMessagef(ErrIntegerOverflow, "%d * %d", x, y)
 	}
 
